@@ -6,7 +6,7 @@ S = 'yalafi.scanner.Scanner.'
 B = 'yalafi.scanner.Buffer.'
 P = 'yalafi.parser.Parser.'
 U = 'yalafi.utils.'
-SCANNER = [S + n for n in ('scan', 'next_token', 'scan_comment', 'scan_space',
+SCANNER = [S + n for n in ('scan', 'next_token', 'error_token', 'scan_comment', 'scan_space',
                            'scan_macro', 'scan_arg_token', 'scan_verb',
                            'scan_verbatim')]
 BUFFER = [B + n for n in ('cur', 'next', 'back', 'skip_space', 'look_ahead')]
@@ -150,3 +150,7 @@ def _handler_qual(repo, mi, v):
         inner = [k for k in repo.funcs if k.startswith(q + '.<locals>.')]
         return inner[0] if inner else None
     return q
+
+MATH = ['yalafi.mathparser.MathParser.' + n for n in (
+    'expand_inline_math', 'expand_display_math', 'expand_math_section',
+    'replace_section')]
